@@ -124,15 +124,31 @@ pub fn scheme<S: Sch + ProofMut>(rec: &mut Rec) {
     let r1 = rho::<S::F>(rec.seed, 1);
     let seeds3 = [0usize, 1, 2];
     let seeds1 = [0usize];
-    for (pi, li, minimal) in cfgs {
+    // grids (every polynomial at every label) and ragged sets (explicit (polynomial, label) pairs: the order
+    // in which point labels are first met while walking the query set differs from their sorted order)
+    let mut sets: Vec<(Vec<(usize, usize)>, bool, String)> = cfgs
+        .into_iter()
+        .map(|(pi, li, minimal)| {
+            let pairs: Vec<(usize, usize)> = pi.iter().flat_map(|p| li.iter().map(move |l| (*p, *l))).collect();
+            (pairs, minimal, format!("polys={:?}/labels={:?}", pi, li))
+        })
+        .collect();
+    sets.push((vec![(0, 2), (1, 0)], false, "ragged=[p0@c,p1@a]".into()));
+    sets.push((vec![(0, 2), (1, 0), (2, 1)], false, "ragged=[p0@c,p1@a,p2@b]".into()));
+    sets.push((vec![(0, 1), (0, 2), (1, 0)], true, "ragged=[p0@b,p0@c,p1@a]".into()));
+    for (pairs, minimal, name) in sets {
+        let pi: Vec<usize> = {
+            let mut v: Vec<usize> = pairs.iter().map(|x| x.0).collect();
+            v.sort();
+            v.dedup();
+            v
+        };
         let comms: Vec<&LCm<S>> = if minimal { pi.iter().map(|i| &c.comms[*i]).collect() } else { all_comms.clone() };
         let mut qs = QuerySet::<S::Pt>::new();
-        for p in pi.iter() {
-            for l in li.iter() {
-                qs.insert((c.polys[*p].label().clone(), (labels[*l].0.clone(), labels[*l].1.clone())));
-            }
+        for (p, l) in pairs.iter() {
+            qs.insert((c.polys[*p].label().clone(), (labels[*l].0.clone(), labels[*l].1.clone())));
         }
-        let tid = format!("{}/C05/{}/polys={:?}/labels={:?}{}", S::NAME, cfg.id(), pi, li, if minimal { "/only-needed-commitments" } else { "" }).replace(' ', "");
+        let tid = format!("{}/C05/{}/{}{}", S::NAME, cfg.id(), name, if minimal { "/only-needed-commitments" } else { "" }).replace(' ', "");
         // the batch is opened by every worker (cheap); sub-families are sharded below
         let b = match open_batch::<S>(&keys, &c, &[0, 1, 2], &qs, 0, rec.seed, 0) {
             Ok(b) => b,
